@@ -651,6 +651,17 @@ def apply_season(model, name, cls, op, node):
         if node.is_mapping() and node.has_attribute_type(op[1], int):
             node.set_attribute(
                 op[1], node.get_attribute(op[1]).get_value() + op[2])
+    elif k == 'push_down':
+        # the owner hands a value down to its items, in place, through the
+        # public helpers: [_, list attribute, item attribute, owner
+        # attribute that holds the value, fallback value]
+        if node.is_mapping() and node.has_attribute_type(op[1], list):
+            val = dec(op[4], model)
+            if node.has_attribute_type(op[3], str):
+                val = node.get_attribute(op[3]).get_value()
+            for item in node.get_attribute(op[1]).seq_items():
+                if item.is_mapping() and not item.has_attribute(op[2]):
+                    item.set_attribute(op[2], val)
     elif k == 'remove_attr':
         if node.is_mapping():
             node.remove_attribute(op[1])
